@@ -14,7 +14,9 @@ SHARD = 600
 EVAL_TIMEOUT = 1200
 RULE = ("(a) pump: the real pipe.New is driven inside a testing/synctest bubble by non-blocking attempts (send / receive / cancel / "
         "close-by-sender, synctest.Wait() after every move so the pump is durably blocked at every observation) for capacities 0..3: "
-        "ALL plans up to 7 moves (quick; 9 thorough) with at most one cancel and one close and no send after the close, plus long random "
+        "ALL plans up to 7 moves (quick; 9 thorough) with at most one cancel and one close and no send after the close; the same plans up to 4 "
+        "(6) moves with one or two moves NOT followed by Wait (so that a value is still parked in the input buffer when the cancel or "
+        "close arrives; GOMAXPROCS(1)); plus long random "
         "histories from VERIF_SEED that repeatedly drain the queue to empty and refill it; every case ends with an epilogue that "
         "ends the stream and receives until the receive side closes; recorded per move: done / would-block / value / closed / crash "
         "(a crash of the pump kills the harness process, the runner attributes it to the case that had begun and re-runs it alone with "
@@ -254,7 +256,11 @@ def to_coq(c):
                 ops.append("QM true" if x == 1 else ("QM false" if x == 0 else "QDcrash"))
             else:
                 ops.append("QDcrash")
-        return "CQueue [" + "; ".join(ops) + "]"
+        if len(ops) <= 5000:
+            return "CQueue [" + "; ".join(ops) + "]"
+        # a list literal nests as deep as it is long: keep every literal short (coqc's stack), concatenate in Coq
+        chunks = ["[" + "; ".join(ops[i:i + 5000]) + "]" for i in range(0, len(ops), 5000)]
+        return "CQueue (List.concat [" + ";\n    ".join(chunks) + "])"
     return "CPump %s %s [%s]" % (vlib.natlit(c["cin"]), vlib.natlit(c["ceg"]), "; ".join(steps_of(c)))
 
 
